@@ -1,5 +1,531 @@
+//! linfa-preprocessing count / tf-idf vectorisers and their parameter sets (HashMap / HashSet / RefCell<Regex> /
+//! skipped function pointer + deserialisation guard).
+
+use crate::rt::*;
+use crate::util::Knobs;
+use linfa::ParamGuard;
+use linfa_preprocessing::tf_idf_vectorization::{FittedTfIdfVectorizer, TfIdfVectorizer};
+use linfa_preprocessing::{CountVectorizer, CountVectorizerParams, PreprocessingError, Tokenizer};
+use ndarray::{Array1, Array2};
 use proptest::prelude::*;
+use serde::{Deserialize, Serialize};
+use std::collections::BTreeMap;
 use vengine::{Obs, Tier};
-pub const REQUIRED: &[&str] = &[];
-pub fn strategy(_t: Tier) -> impl Strategy<Value = u8> { any::<u8>() }
-pub fn check(_c: &u8, _obs: &mut Obs) {}
+
+pub const REQUIRED: &[&str] = &[
+    "CountVectorizerParams",
+    "CountVectorizer",
+    "TfIdfVectorizer",
+    "FittedTfIdfVectorizer",
+    "function_tokenizer",
+    "regex_tokenizer",
+];
+
+#[derive(Debug, Clone, Serialize, Deserialize)]
+pub struct TextCase {
+    /// 0 CountVectorizerParams, 1 CountVectorizer, 2 TfIdfVectorizer, 3 FittedTfIdfVectorizer
+    pub kind: u16,
+    /// training documents as word indices into `VOCAB`
+    pub docs: Vec<Vec<u16>>,
+    /// query documents
+    pub qdocs: Vec<Vec<u16>>,
+    pub knobs: Vec<u16>,
+}
+
+/// Words with upper case, composed / compatibility characters (NFKD changes them), single letters and digits.
+const VOCAB: [&str; 16] = [
+    "one", "Two", "three", "FOUR", "five", "ab", "b", "caf\u{e9}", "Stra\u{df}e", "\u{fb01}n", "x1", "the", "and", "e\u{301}cole", "two", "a",
+];
+const SEPS: [&str; 3] = [" ", " ; ", ", "];
+
+fn render(doc: &[u16], sep_dial: usize) -> String {
+    let mut s = String::new();
+    for (i, w) in doc.iter().enumerate() {
+        if i > 0 {
+            s.push_str(SEPS[(sep_dial + i) % SEPS.len()]);
+        }
+        s.push_str(VOCAB[vengine::gen::idx(*w, VOCAB.len())]);
+    }
+    s
+}
+
+pub fn strategy(t: Tier) -> impl Strategy<Value = TextCase> {
+    let max_docs = t.pick(6usize, 12);
+    let doc = || proptest::collection::vec(any::<u16>(), 0..=8);
+    (
+        0u16..4,
+        proptest::collection::vec(doc(), 1..=max_docs),
+        proptest::collection::vec(doc(), 1..=3),
+        proptest::collection::vec(any::<u16>(), 12),
+    )
+        .prop_map(|(kind, docs, qdocs, knobs)| TextCase { kind, docs, qdocs, knobs })
+}
+
+/// The function tokenizer: unlike the default regex it keeps one-letter words and splits on blanks and ';' only.
+fn tok(s: &str) -> Vec<&str> {
+    s.split(|c: char| c == ' ' || c == ';').filter(|t| !t.is_empty()).collect()
+}
+
+#[derive(Clone, Copy, PartialEq, Debug)]
+enum Tk {
+    DefaultRegex,
+    Regex(&'static str),
+    Function,
+    /// function first, then a regex: the builder keeps the function but clears the guard (C04 finding)
+    FunctionThenRegex,
+}
+
+struct Built {
+    params: CountVectorizerParams,
+    tk: Tk,
+}
+
+fn build(k: &mut Knobs, obs: &mut Obs, allow_invalid: bool) -> Built {
+    let tk = match k.pick(8) {
+        0 | 1 | 2 => Tk::DefaultRegex,
+        3 => Tk::Regex(r"\w+"),
+        4 => Tk::Regex(r"[a-z]+"),
+        5 | 6 => Tk::Function,
+        _ => {
+            if k.flag() {
+                Tk::FunctionThenRegex
+            } else if allow_invalid {
+                Tk::Regex("[")
+            } else {
+                Tk::Regex(r"\b\w+\b")
+            }
+        }
+    };
+    let mut p = CountVectorizer::params();
+    match tk {
+        Tk::DefaultRegex => {}
+        Tk::Regex(r) => p = p.tokenizer(Tokenizer::Regex(r.to_string())),
+        Tk::Function => p = p.tokenizer(Tokenizer::Function(tok)),
+        Tk::FunctionThenRegex => p = p.tokenizer(Tokenizer::Function(tok)).tokenizer(Tokenizer::Regex(r"\w+".to_string())),
+    }
+    obs.class_if(matches!(tk, Tk::Function), "function_tokenizer");
+    obs.class_if(matches!(tk, Tk::DefaultRegex | Tk::Regex(_)), "regex_tokenizer");
+    obs.class_if(matches!(tk, Tk::FunctionThenRegex), "function_then_regex_history");
+    p = p.convert_to_lowercase(!k.rare()).normalize(!k.rare());
+    let ranges: &[(usize, usize)] = if allow_invalid { &[(1, 1), (1, 2), (2, 2), (1, 3), (0, 1), (2, 1)] } else { &[(1, 1), (1, 2), (2, 2), (1, 3)] };
+    let (a, b) = ranges[k.pick(ranges.len())];
+    p = p.n_gram_range(a, b);
+    let dfs: &[(f32, f32)] = if allow_invalid {
+        &[(0.0, 1.0), (0.0, 1.0), (0.2, 0.9), (0.0, 0.75), (-0.1, 1.0), (0.9, 0.1), (f32::NAN, 1.0)]
+    } else {
+        &[(0.0, 1.0), (0.0, 1.0), (0.2, 0.9), (0.0, 0.75)]
+    };
+    let (lo, hi) = dfs[k.pick(dfs.len())];
+    p = p.document_frequency(lo, hi);
+    match k.pick(3) {
+        0 => {}
+        1 => {
+            p = p.stopwords(&["the", "and", "a", "one", "two", "b"]);
+            obs.class("with_stopwords");
+        }
+        _ => {
+            p = p.stopwords(&["the"]);
+            obs.class("with_stopwords");
+        }
+    }
+    if k.rare() {
+        p = p.max_features(Some(1 + k.pick(4)));
+        obs.class("with_max_features");
+    }
+    Built { params: p, tk }
+}
+
+fn texts(docs: &[Vec<u16>], sep: usize) -> Array1<String> {
+    docs.iter().map(|d| render(d, sep)).collect()
+}
+
+fn err_text<T>(r: Result<T, PreprocessingError>) -> Result<T, String> {
+    r.map_err(|e| e.to_string())
+}
+
+/// word -> column of the dense count matrix (a fit's column order follows HashMap iteration)
+fn by_word(v: &CountVectorizer, x: &Array1<String>) -> Result<BTreeMap<String, Vec<usize>>, String> {
+    let m: Array2<usize> = err_text(v.transform(x))?.to_dense();
+    let voc = v.vocabulary();
+    if voc.len() != m.ncols() || v.nentries() != voc.len() {
+        return Err(format!("<vocabulary of {} words, {} entries, {} columns>", voc.len(), v.nentries(), m.ncols()));
+    }
+    Ok(voc.iter().enumerate().map(|(j, w)| (w.clone(), m.column(j).to_vec())).collect())
+}
+
+fn by_word_tfidf(v: &FittedTfIdfVectorizer, x: &Array1<String>) -> Result<BTreeMap<String, Vec<u64>>, String> {
+    let m: Array2<f64> = err_text(v.transform(x))?.to_dense();
+    let voc = v.vocabulary();
+    if voc.len() != m.ncols() || v.nentries() != voc.len() {
+        return Err(format!("<vocabulary of {} words, {} entries, {} columns>", voc.len(), v.nentries(), m.ncols()));
+    }
+    Ok(voc.iter().enumerate().map(|(j, w)| (w.clone(), m.column(j).iter().map(|f| f.to_bits()).collect())).collect())
+}
+
+pub fn check(c: &TextCase, obs: &mut Obs) {
+    let mut k = Knobs::new(&c.knobs);
+    let sep = k.pick(3);
+    let x = texts(&c.docs, sep);
+    let q = texts(&c.qdocs, sep + 1);
+    obs.class_if(c.docs.iter().any(|d| d.is_empty()), "empty_document");
+    match c.kind {
+        0 => count_params(obs, &mut k, &x, &q),
+        1 => count_fitted(obs, &mut k, &x, &q),
+        2 => tfidf_params(obs, &mut k, &x, &q),
+        _ => tfidf_fitted(obs, &mut k, &x, &q),
+    }
+}
+
+// ------------------------------------------------------------------------------------------------
+
+fn params_obligations(obs: &mut Obs, t: &str, fmt: Fmt, tk: Tk, params: &CountVectorizerParams, back: &CountVectorizerParams, want_verdict: &Result<(), String>) {
+    must(obs, t, fmt, "check_ref-verdict", verdict(back.check_ref()) == *want_verdict);
+    if let (Ok(a), Ok(b)) = (params.check_ref(), back.check_ref()) {
+        must(obs, t, fmt, "max_features", a.max_features() == b.max_features());
+        must(obs, t, fmt, "convert_to_lowercase", a.convert_to_lowercase() == b.convert_to_lowercase());
+        must(obs, t, fmt, "split_regex", a.split_regex().as_str() == b.split_regex().as_str());
+        must(obs, t, fmt, "n_gram_range", a.n_gram_range() == b.n_gram_range());
+        must(obs, t, fmt, "normalize", a.normalize() == b.normalize());
+        must(
+            obs,
+            t,
+            fmt,
+            "document_frequency",
+            a.document_frequency().0.to_bits() == b.document_frequency().0.to_bits() && a.document_frequency().1.to_bits() == b.document_frequency().1.to_bits(),
+        );
+        must(obs, t, fmt, "stopwords", a.stopwords() == b.stopwords());
+        // a function pointer cannot travel (documented `serde(skip)`): it must be gone, never replaced by something else
+        must(obs, t, fmt, "tokenizer_function-is-dropped", b.tokenizer_function().is_none());
+        if matches!(tk, Tk::DefaultRegex | Tk::Regex(_)) {
+            must(obs, t, fmt, "tokenizer_function", a.tokenizer_function().is_none());
+        }
+    }
+}
+
+/// Refit obligations of a count-vectoriser parameter set. `fit` abstracts over CountVectorizerParams / TfIdfVectorizer.
+fn refit_obligations<P, M>(
+    obs: &mut Obs,
+    t: &str,
+    fmt: Fmt,
+    tk: Tk,
+    params: &P,
+    back: &P,
+    redefine: impl Fn(&P) -> P,
+    fit: impl Fn(&P) -> Result<M, String>,
+    view: impl Fn(&M) -> Result<BTreeMap<String, Vec<u64>>, String>,
+    redefine_model: impl Fn(&mut M),
+) {
+    let want = observe(|| fit(params).and_then(|m| view(&m)));
+    let want = match want {
+        Ok(w) => w,
+        Err(_) => return obs.class("orig_behaviour_panics"),
+    };
+    obs.class_if(want.is_ok(), "refit_compared_models");
+    match tk {
+        Tk::DefaultRegex | Tk::Regex(_) => {
+            let got = vengine::guard(|| fit(back).and_then(|m| view(&m)));
+            match got {
+                Err(p) => obs.fail(format!("{t}:refit-panics:{}", fmt.name()), p),
+                Ok(g) => must(obs, t, fmt, "refit", g == want),
+            }
+        }
+        Tk::Function => {
+            // (a) re-supplying the function (the documented way) must give the original's model
+            let again = redefine(back);
+            match vengine::guard(|| fit(&again).and_then(|m| view(&m))) {
+                Err(p) => obs.fail(format!("{t}:refit-after-redefinition-panics:{}", fmt.name()), p),
+                Ok(g) => must(obs, t, fmt, "refit-after-redefinition", g == want),
+            }
+            // (b) without it the restored set must not quietly train with a different tokenizer: either the fit refuses,
+            //     or the model it returns equals the original's once the function is re-supplied to the model
+            match vengine::guard(|| {
+                fit(back).and_then(|mut m| {
+                    redefine_model(&mut m);
+                    view(&m)
+                })
+            }) {
+                Err(p) => obs.fail(format!("{t}:refit-panics:{}", fmt.name()), p),
+                Ok(Err(_)) => obs.class("restored_function_params_refuse_to_fit"),
+                Ok(Ok(g)) => {
+                    if want.as_ref().ok() != Some(&g) {
+                        obs.fail(
+                            format!("{t}:restored-function-tokenizer-fits-with-regex"),
+                            format!(
+                                "[{}] parameters built with Tokenizer::Function lose the function in the round trip (guard set), yet `fit` on the restored set \
+                                 answers Ok and builds its vocabulary with the default regex: {} words instead of the original's {}",
+                                fmt.name(),
+                                g.len(),
+                                want.as_ref().map(|w| w.len()).unwrap_or(0)
+                            ),
+                        );
+                    }
+                }
+            }
+        }
+        Tk::FunctionThenRegex => {
+            // the original keeps using the function although a regex was set afterwards and the guard is clear; the restored set uses the regex
+            let got = vengine::guard(|| fit(back).and_then(|m| view(&m)));
+            match got {
+                Err(p) => obs.fail(format!("{t}:refit-panics:{}", fmt.name()), p),
+                Ok(g) => {
+                    if g != want {
+                        obs.fail(
+                            format!("{t}:function-then-regex:refit-differs"),
+                            format!(
+                                "[{}] builder .tokenizer(Function).tokenizer(Regex) keeps the function with the guard cleared: the original fits with the function, \
+                                 the restored set silently fits with the regex",
+                                fmt.name()
+                            ),
+                        );
+                    }
+                }
+            }
+        }
+    }
+}
+
+fn u64s(m: BTreeMap<String, Vec<usize>>) -> BTreeMap<String, Vec<u64>> {
+    m.into_iter().map(|(k, v)| (k, v.into_iter().map(|x| x as u64).collect())).collect()
+}
+
+fn count_params(obs: &mut Obs, k: &mut Knobs, x: &Array1<String>, _q: &Array1<String>) {
+    const T: &str = "CountVectorizerParams";
+    let Built { params, tk } = build(k, obs, true);
+    obs.class(T);
+    obs.nontrivial();
+    // pristine (split_regex cell still empty)
+    let pristine = roundtrip(obs, T, &params, HASHED);
+    let want_verdict = verdict(params.check_ref());
+    obs.class_if(want_verdict.is_ok(), "params_valid");
+    obs.class_if(want_verdict.is_err(), "params_invalid");
+    // after check_ref the RefCell holds the compiled regex, which is serialised too
+    let checked = roundtrip(obs, T, &params, HASHED);
+    for (fmt, back) in pristine.into_iter().chain(checked) {
+        params_obligations(obs, T, fmt, tk, &params, &back, &want_verdict);
+        if want_verdict.is_ok() {
+            refit_obligations(
+                obs,
+                T,
+                fmt,
+                tk,
+                &params,
+                &back,
+                |p| p.clone().tokenizer(Tokenizer::Function(tok)),
+                |p| err_text(p.fit(x)),
+                |m| by_word(m, x).map(u64s),
+                |m| m.force_tokenizer_function_redefinition(tok),
+            );
+        }
+    }
+    if let Ok(valid) = params.check_ref() {
+        const V: &str = "CountVectorizerValidParams";
+        obs.class(V);
+        for (fmt, back) in roundtrip(obs, V, valid, HASHED) {
+            must(obs, V, fmt, "split_regex", valid.split_regex().as_str() == back.split_regex().as_str());
+            must(obs, V, fmt, "n_gram_range", valid.n_gram_range() == back.n_gram_range());
+            must(obs, V, fmt, "stopwords", valid.stopwords() == back.stopwords());
+            if matches!(tk, Tk::DefaultRegex | Tk::Regex(_)) {
+                let want = observe(|| err_text(valid.fit(x)).and_then(|m| by_word(&m, x)));
+                same_behaviour(obs, V, fmt, "refit", &want, || err_text(back.fit(x)).and_then(|m| by_word(&m, x)), |a, b| a == b);
+            }
+        }
+    }
+}
+
+/// Obligations for a fitted count vectoriser given how its tokenizer was configured.
+fn fitted_obligations<M: Clone>(
+    obs: &mut Obs,
+    t: &str,
+    fmt: Fmt,
+    tk: Tk,
+    want: &Result<Result<BTreeMap<String, Vec<u64>>, String>, String>,
+    back: &M,
+    view: impl Fn(&M) -> Result<BTreeMap<String, Vec<u64>>, String>,
+    redefine: impl Fn(&mut M),
+    not_set_text: &str,
+) {
+    let want = match want {
+        Ok(w) => w,
+        Err(_) => return obs.class("orig_behaviour_panics"),
+    };
+    match tk {
+        Tk::DefaultRegex | Tk::Regex(_) => match vengine::guard(|| view(back)) {
+            Err(p) => obs.fail(format!("{t}:transform-panics:{}", fmt.name()), p),
+            Ok(g) => must(obs, t, fmt, "transform", g == *want),
+        },
+        Tk::Function => {
+            // until the function is supplied again the restored vectoriser must refuse
+            match vengine::guard(|| view(back)) {
+                Err(p) => obs.fail(format!("{t}:transform-panics:{}", fmt.name()), p),
+                Ok(Err(e)) => must(obs, t, fmt, "tokenizer-guard-error-kind", e == not_set_text),
+                Ok(Ok(_)) => obs.fail(
+                    format!("{t}:tokenizer-guard-missing:{}", fmt.name()),
+                    "a vectoriser fitted with a function tokenizer transforms after the round trip although the function was never supplied again",
+                ),
+            }
+            let mut again = back.clone();
+            redefine(&mut again);
+            match vengine::guard(|| view(&again)) {
+                Err(p) => obs.fail(format!("{t}:transform-after-redefinition-panics:{}", fmt.name()), p),
+                Ok(g) => must(obs, t, fmt, "transform-after-redefinition", g == *want),
+            }
+        }
+        Tk::FunctionThenRegex => match vengine::guard(|| view(back)) {
+            Err(p) => obs.fail(format!("{t}:transform-panics:{}", fmt.name()), p),
+            Ok(g) => {
+                if g != *want {
+                    obs.fail(
+                        format!("{t}:function-then-regex:transform-differs"),
+                        format!(
+                            "[{}] builder .tokenizer(Function).tokenizer(Regex) keeps the function with the guard cleared: the original vectoriser tokenises with the \
+                             function, the restored one silently with the regex",
+                            fmt.name()
+                        ),
+                    );
+                }
+            }
+        },
+    }
+}
+
+fn count_fitted(obs: &mut Obs, k: &mut Knobs, x: &Array1<String>, q: &Array1<String>) {
+    const T: &str = "CountVectorizer";
+    let Built { params, tk } = build(k, obs, false);
+    let by_vocabulary = k.rare();
+    let model = match vengine::guard(|| if by_vocabulary { params.fit_vocabulary(&["one", "two", "caf\u{e9}", "b", "one two"]) } else { params.fit(x) }) {
+        Ok(Ok(m)) => m,
+        _ => return obs.skip("fit_failed"),
+    };
+    obs.class(T);
+    obs.class_if(by_vocabulary, "fit_vocabulary");
+    obs.class_if(model.nentries() == 0, "empty_vocabulary");
+    obs.class_if(model.nentries() >= 4, "vocabulary_of_four_or_more");
+    obs.nontrivial();
+    let not_set = PreprocessingError::TokenizerNotSet.to_string();
+    // column order is part of the fitted state: compare in the model's own order (index-tagged)
+    let view = |m: &CountVectorizer| -> Result<BTreeMap<String, Vec<u64>>, String> {
+        let mut out = BTreeMap::new();
+        for (name, docs) in [("train", x), ("query", q)] {
+            let d: Array2<usize> = err_text(m.transform(docs))?.to_dense();
+            out.insert(format!("{name}:shape"), vec![d.nrows() as u64, d.ncols() as u64]);
+            out.insert(format!("{name}:data"), d.iter().map(|v| *v as u64).collect());
+        }
+        Ok(out)
+    };
+    let want = observe(|| view(&model));
+    for (fmt, back) in roundtrip(obs, T, &model, HASHED) {
+        must(obs, T, fmt, "nentries", model.nentries() == back.nentries());
+        must(obs, T, fmt, "vocabulary", model.vocabulary() == back.vocabulary());
+        fitted_obligations(obs, T, fmt, tk, &want, &back, view, |m| m.force_tokenizer_function_redefinition(tok), &not_set);
+    }
+}
+
+/// `TfIdfVectorizer` offers no setter for its method (always `Smooth`); the three `TfIdfMethod` values are covered by the
+/// enumeration sub-check.
+fn tfidf_builder(k: &mut Knobs, obs: &mut Obs, allow_invalid: bool) -> (TfIdfVectorizer, Tk) {
+    // mirror `build` through TfIdfVectorizer's own builder methods
+    let tk = match k.pick(8) {
+        0 | 1 | 2 => Tk::DefaultRegex,
+        3 => Tk::Regex(r"\w+"),
+        4 => Tk::Regex(r"[a-z]+"),
+        5 | 6 => Tk::Function,
+        _ => {
+            if k.flag() {
+                Tk::FunctionThenRegex
+            } else if allow_invalid {
+                Tk::Regex("[")
+            } else {
+                Tk::Regex(r"\b\w+\b")
+            }
+        }
+    };
+    let mut p = TfIdfVectorizer::default();
+    match tk {
+        Tk::DefaultRegex => {}
+        Tk::Regex(r) => p = p.tokenizer(Tokenizer::Regex(r.to_string())),
+        Tk::Function => p = p.tokenizer(Tokenizer::Function(tok)),
+        Tk::FunctionThenRegex => p = p.tokenizer(Tokenizer::Function(tok)).tokenizer(Tokenizer::Regex(r"\w+".to_string())),
+    }
+    obs.class_if(matches!(tk, Tk::Function), "function_tokenizer");
+    obs.class_if(matches!(tk, Tk::DefaultRegex | Tk::Regex(_)), "regex_tokenizer");
+    obs.class_if(matches!(tk, Tk::FunctionThenRegex), "function_then_regex_history");
+    p = p.convert_to_lowercase(!k.rare()).normalize(!k.rare());
+    let ranges: &[(usize, usize)] = if allow_invalid { &[(1, 1), (1, 2), (2, 2), (0, 1), (2, 1)] } else { &[(1, 1), (1, 2), (2, 2)] };
+    let (a, b) = ranges[k.pick(ranges.len())];
+    p = p.n_gram_range(a, b);
+    let dfs: &[(f32, f32)] = if allow_invalid { &[(0.0, 1.0), (0.2, 0.9), (-0.1, 1.0), (0.9, 0.1)] } else { &[(0.0, 1.0), (0.0, 1.0), (0.2, 0.9)] };
+    let (lo, hi) = dfs[k.pick(dfs.len())];
+    p = p.document_frequency(lo, hi);
+    if k.flag() {
+        p = p.stopwords(&["the", "and", "b"]);
+        obs.class("with_stopwords");
+    }
+    if k.rare() {
+        p = p.max_features(Some(1 + k.pick(4)));
+        obs.class("with_max_features");
+    }
+    (p, tk)
+}
+
+fn tfidf_params(obs: &mut Obs, k: &mut Knobs, x: &Array1<String>, _q: &Array1<String>) {
+    const T: &str = "TfIdfVectorizer";
+    let (params, tk) = tfidf_builder(k, obs, true);
+    obs.class(T);
+    obs.nontrivial();
+    let pristine = roundtrip(obs, T, &params, HASHED);
+    // fitting runs check_ref on the inner CountVectorizerParams, which fills the regex cell
+    let verdict0 = observe(|| err_text(params.fit(x)).map(|_| ()));
+    obs.class_if(matches!(verdict0, Ok(Ok(()))), "params_valid");
+    obs.class_if(matches!(verdict0, Ok(Err(_))), "params_invalid");
+    let checked = roundtrip(obs, T, &params, HASHED);
+    for (fmt, back) in pristine.into_iter().chain(checked) {
+        if matches!(verdict0, Ok(Ok(()))) {
+            refit_obligations(
+                obs,
+                T,
+                fmt,
+                tk,
+                &params,
+                &back,
+                |p| p.clone().tokenizer(Tokenizer::Function(tok)),
+                |p| err_text(p.fit(x)),
+                |m| by_word_tfidf(m, x),
+                |m| m.force_tokenizer_redefinition(tok),
+            );
+        } else if let Ok(Err(e)) = &verdict0 {
+            // an invalid set must stay invalid with the same error
+            let got = vengine::guard(|| err_text(back.fit(x)).map(|_| ()));
+            must(obs, T, fmt, "fit-verdict", matches!(&got, Ok(Err(g)) if g == e));
+        }
+    }
+}
+
+fn tfidf_fitted(obs: &mut Obs, k: &mut Knobs, x: &Array1<String>, q: &Array1<String>) {
+    const T: &str = "FittedTfIdfVectorizer";
+    let (params, tk) = tfidf_builder(k, obs, false);
+    let model = match vengine::guard(|| params.fit(x)) {
+        Ok(Ok(m)) => m,
+        _ => return obs.skip("fit_failed"),
+    };
+    obs.class(T);
+    obs.class_if(model.nentries() == 0, "empty_vocabulary");
+    obs.class_if(model.nentries() >= 4, "vocabulary_of_four_or_more");
+    obs.nontrivial();
+    let not_set = PreprocessingError::TokenizerNotSet.to_string();
+    let view = |m: &FittedTfIdfVectorizer| -> Result<BTreeMap<String, Vec<u64>>, String> {
+        let mut out = BTreeMap::new();
+        for (name, docs) in [("train", x), ("query", q)] {
+            let d: Array2<f64> = err_text(m.transform(docs))?.to_dense();
+            out.insert(format!("{name}:shape"), vec![d.nrows() as u64, d.ncols() as u64]);
+            out.insert(format!("{name}:data"), d.iter().map(|v| v.to_bits()).collect());
+        }
+        Ok(out)
+    };
+    let want = observe(|| view(&model));
+    for (fmt, back) in roundtrip(obs, T, &model, HASHED) {
+        must(obs, T, fmt, "nentries", model.nentries() == back.nentries());
+        must(obs, T, fmt, "vocabulary", model.vocabulary() == back.vocabulary());
+        must(obs, T, fmt, "method", model.method() == back.method());
+        fitted_obligations(obs, T, fmt, tk, &want, &back, view, |m| m.force_tokenizer_redefinition(tok), &not_set);
+    }
+}
